@@ -31,8 +31,10 @@ import (
 )
 
 type round struct {
-	Warm string `json:"warm"`
-	Prog string `json:"prog"`
+	Warm  string `json:"warm"`
+	Prog  string `json:"prog"`
+	Prog2 string `json:"prog2"` // if set, the odd-numbered goroutines evaluate this program instead (two roles meeting in one round)
+	Reps  int    `json:"reps"`  // every goroutine evaluates its program this many times (default 1); @R@ is the repetition number
 }
 
 type httpReq struct {
@@ -240,12 +242,30 @@ func main() {
 			go func(g int) {
 				defer wg.Done()
 				<-start
-				res.Conc[g] = eval(global, r.Prog)
+				src := r.Prog
+				if r.Prog2 != "" && g%2 == 1 {
+					src = r.Prog2
+				}
+				src = strings.ReplaceAll(src, "@G@", strconv.Itoa(g))
+				reps := r.Reps
+				if reps < 1 {
+					reps = 1
+				}
+				for k := 0; k < reps; k++ {
+					res.Conc[g] = eval(global, strings.ReplaceAll(src, "@R@", strconv.Itoa(k)))
+				}
 			}(g)
 		}
 		close(start)
 		wg.Wait()
-		res.Ref = eval(global, r.Prog)
+		if r.Prog2 == "" && r.Reps <= 1 {
+			res.Ref = eval(global, strings.ReplaceAll(r.Prog, "@G@", strconv.Itoa(rq.N)))
+		} else {
+			res.Ref = "" // roles / repetitions: results are not compared, the round exists for the race detector
+			for g := range res.Conc {
+				res.Conc[g] = ""
+			}
+		}
 		rs.Rounds = append(rs.Rounds, res)
 	}
 	p1 := make([][]string, rq.N)
